@@ -161,7 +161,7 @@ pub fn train_case(c: &TrCase) -> Trained {
         }
     }
     out.examples = examples_text(&trainer.verif_examples());
-    let r = silence_stdout(|| catch(|| trainer.train(0.01, 1.0, solver_of(c.solver))));
+    let r = silence_stdout(|| catch(|| trainer.train(0.01, if c.solver >= 100 { 0.1 } else { 1.0 }, solver_of(c.solver % 100))));
     out.trace_items = take_trace();
     match r {
         Ok(Ok(m)) => {
@@ -263,6 +263,15 @@ pub fn run(toks: &[&str], fails: &mut Vec<(String, String)>, effective: &mut Opt
     let t = train_case(&c);
     if oracle.contains("c11") && t.outcome.starts_with("panic") {
         fails.push(("C11".into(), format!("training panicked ({})", t.outcome)));
+    }
+    // a sentence that the parsers accepted makes `add_example` panic: no example is handed to the learner for it (C10), the model
+    // that training should return does not exist (C09, C12); C11 has its own message above
+    if t.outcome == "panic:add" {
+        for (tag, prop) in [("c10", "C10"), ("c09", "C09"), ("c12", "C12")] {
+            if oracle.contains(tag) {
+                fails.push((prop.into(), format!("Trainer::add_example panicked on a sentence of the corpus (configuration charw={} charn={} typew={} typen={}): the examples of that sentence never reach the learner", c.cw, c.cn, c.tw, c.tn)));
+            }
+        }
     }
     if oracle.contains("c10") && !t.outcome.starts_with("err:new") && !t.outcome.starts_with("panic:new") && t.outcome != "err:corpus" && t.outcome != "panic:add" {
         if let Some(exp) = brute_examples(&c) {
@@ -508,7 +517,10 @@ pub fn cli_train(thorough: bool, seed: u64, family: &str) {
         let dict_lines: Vec<String> = c.dict.iter().map(|w| esc(w)).chain(c.tagdict.iter().cloned()).collect();
         std::fs::write(&dp, dict_lines.iter().map(|l| format!("{l}\n")).collect::<String>()).unwrap();
         let _ = std::fs::remove_file(&mp);
-        let mut args: Vec<String> = vec!["--model".into(), s(&mp), "--solver".into(), c.solver.to_string()];
+        let mut args: Vec<String> = vec!["--model".into(), s(&mp), "--solver".into(), (c.solver % 100).to_string()];
+        if c.solver >= 100 {
+            args.extend(["--cost".to_string(), "0.1".to_string()]);
+        }
         // at least one data set option is required by the tool; an empty file stands for an empty corpus.
         // Every other case spreads the corpus and the dictionary over SEVERAL files of the same option (all must be used)
         let several = i % 2 == 1;
